@@ -55,8 +55,12 @@ def judge_parallel(events, procs=8, chunk=2000, module="Judge"):
         jr.judge(evs)
         return jr
 
+    # balance: biggest events first, dealt round-robin over the chunks
+    n_chunks = max(1, (len(events) + chunk - 1) // chunk)
+    order = sorted(events, key=lambda e: -len(json.dumps(e)))
+    parts = [order[i::n_chunks] for i in range(n_chunks)]
     with ThreadPoolExecutor(procs) as ex:
-        runs = list(ex.map(one, list(chunks(events, chunk))))
+        runs = list(ex.map(one, [p for p in parts if p]))
     out = JudgeRun(module)
     for r in runs:
         out.verdicts.update(r.verdicts)
